@@ -1,6 +1,7 @@
 package eventbus
 
 import (
+	"math"
 	"context"
 	"time"
 )
@@ -57,7 +58,7 @@ func c10Same(e *StoredEvent, r c10Rec) bool {
 	return e.Offset == r.off && e.Type == r.typ && string(e.Data) == string(r.data) && e.Timestamp.Equal(r.ts) && e.Timestamp.Location() == r.ts.Location()
 }
 
-//verif:entry property=C10 tier=both bounds="memory store: symbolic base position p in [0,10^18-8], log length n<=N, chain of R reads with limits in [-1,N+1], start index k<=n, each resume from next or from any returned event" cover="chain-done,resumed-from-event" N_quick=3 N_thorough=4 R_quick=2 R_thorough=3
+//verif:entry property=C10 tier=both bounds="memory store: symbolic base position p in [0,10^18-8], log length n<=N, chain of R reads with limits in [-1,N+1] or within 8 of the largest int, start index k<=n, each resume from next or from any returned event" cover="chain-done,resumed-from-event" N_quick=3 N_thorough=4 R_quick=2 R_thorough=3
 func harnessC10MemReadChain() {
 	N := vParam("N", 3)
 	R := vParam("R", 2)
@@ -74,6 +75,9 @@ func harnessC10MemReadChain() {
 	pos := k
 	for r := 0; r < R; r++ {
 		l := vInt(-1, N+1)
+		if vBool() {
+			l = vInt(math.MaxInt-8, math.MaxInt) // "no limit in practice": the largest values an int can hold
+		}
 		evs, next, err := st.Read(ctx, from, l)
 		vAssert(err == nil, "read-ok")
 		want := n - pos
